@@ -62,6 +62,12 @@ Proof.
   assert (live_sum (live_remove seq l) <= live_sum l) by (apply IH; intros; eapply H; right; eauto).
   destruct (s0 =? seq)%N; cbn [live_sum]; lia.
 Qed.
+Lemma live_sum_nonneg l : (forall s a, In (s, a) l -> 0 <= a) -> 0 <= live_sum l.
+Proof.
+  induction l as [|[s0 a0] l IH]; cbn [live_sum]; intros H; [lia|].
+  assert (0 <= a0) by (apply (H s0); left; auto).
+  assert (0 <= live_sum l) by (apply IH; intros; eapply H; right; eauto). lia.
+Qed.
 Lemma live_find_some seq l a : live_find seq l = Some a -> In (seq, a) l.
 Proof.
   induction l as [|[s0 a0] l IH]; cbn [live_find]; [discriminate|].
@@ -95,7 +101,8 @@ Definition side_ok (A : N -> Z) (f : Z) (pend : N -> bool) (gs : GSide) : Prop :
 
 Lemma side_ok_new A : side_ok A 0 (fun _ => false) gs0.
 Proof.
-  unfold side_ok, gs0; cbn. repeat split; try lia; try tauto; try discriminate. constructor.
+  unfold side_ok, gs0; cbn. split; [lia|]. split; [lia|]. split; [lia|]. split; [tauto|]. split; [constructor|].
+  intros s. split; [discriminate|tauto].
 Qed.
 
 Lemma side_ok_ext A f pend pend' gs :
@@ -106,34 +113,45 @@ Proof.
   intros s. rewrite He. apply H6.
 Qed.
 
+Lemma live_nonneg_of (A : N -> Z) (l : list (N * Z)) : (forall s a, In (s, a) l -> 0 <= a /\ a = A s) -> forall s a, In (s, a) l -> 0 <= a.
+Proof. intros H s a Hin. apply (H s a Hin). Qed.
+
+Lemma live_remove_keeps (A : N -> Z) seq (l : list (N * Z)) :
+  (forall s a, In (s, a) l -> 0 <= a /\ a = A s) -> forall s a, In (s, a) (live_remove seq l) -> 0 <= a /\ a = A s.
+Proof. intros H s a Hin. apply live_remove_in in Hin. apply H. tauto. Qed.
+
+Lemma pend_after_remove (pend : N -> bool) l seq :
+  (forall s, pend s = true <-> In s (map fst l)) ->
+  forall s, (if (s =? seq)%N then false else pend s) = true <-> In s (map fst (live_remove seq l)).
+Proof.
+  intros H6 s. rewrite live_remove_keys. destruct (N.eqb_spec s seq) as [E|E].
+  - split; [discriminate|tauto].
+  - rewrite H6. tauto.
+Qed.
+
 Lemma side_ok_accept A f pend gs seq a :
   side_ok A f pend gs -> 0 <= a -> a = A seq ->
   side_ok A (f + a) (fun s => if (s =? seq)%N then true else pend s) (gs_accept gs seq a).
 Proof.
-  intros (H1 & H2 & H3 & H4 & H5 & H6) Ha HA. unfold gs_accept. cbn [g_acc g_undone g_live].
-  assert (Hle := live_sum_remove_le seq (g_live gs) (fun s a0 Hin => proj1 (H4 s a0 Hin))).
-  repeat split.
-  - lia.
-  - lia.
-  - cbn [live_sum]. lia.
-  - destruct H as [H|H]; [inversion H; subst; auto|]. apply live_remove_in in H. apply (H4 s a0). tauto.
-  - destruct H as [H|H]; [inversion H; subst; auto|]. apply live_remove_in in H. apply (H4 s a0). tauto.
+  intros (H1 & H2 & H3 & H4 & H5 & H6) Ha HA. unfold side_ok, gs_accept. cbn [g_acc g_undone g_live].
+  assert (Hle := live_sum_remove_le seq (g_live gs) (live_nonneg_of _ _ H4)).
+  split; [lia|]. split; [lia|]. split; [cbn [live_sum]; lia|]. split; [|split].
+  - intros s a0 [Hin|Hin]; [inversion Hin; subst; auto| eapply live_remove_keeps; eauto].
   - cbn [map fst]. constructor; [rewrite live_remove_keys; tauto| apply live_remove_nodup; auto].
-  - cbn [map fst In]. destruct (N.eqb_spec s seq); [auto|]. intros H. right. rewrite live_remove_keys. split; auto. apply H6; auto.
-  - cbn [map fst In]. destruct (N.eqb_spec s seq); [auto|]. intros [H|H]; [congruence|]. rewrite live_remove_keys in H. apply H6. tauto.
+  - intros s. cbn [map fst In]. rewrite live_remove_keys. destruct (N.eqb_spec s seq) as [E|E].
+    + split; auto.
+    + rewrite H6. split; [intros Hin; right; auto| intros [Hq|Hq]; [congruence|tauto]].
 Qed.
 
 Lemma side_ok_final A f pend gs seq :
   side_ok A f pend gs -> side_ok A f (fun s => if (s =? seq)%N then false else pend s) (gs_final gs seq).
 Proof.
-  intros (H1 & H2 & H3 & H4 & H5 & H6). unfold gs_final. cbn [g_acc g_undone g_live].
-  assert (Hle := live_sum_remove_le seq (g_live gs) (fun s a0 Hin => proj1 (H4 s a0 Hin))).
-  repeat split; auto; try lia.
-  - apply live_remove_in in H. apply (H4 s a). tauto.
-  - apply live_remove_in in H. apply (H4 s a). tauto.
+  intros (H1 & H2 & H3 & H4 & H5 & H6). unfold side_ok, gs_final. cbn [g_acc g_undone g_live].
+  assert (Hle := live_sum_remove_le seq (g_live gs) (live_nonneg_of _ _ H4)).
+  split; [lia|]. split; [lia|]. split; [lia|]. split; [|split].
+  - eapply live_remove_keeps; eauto.
   - apply live_remove_nodup; auto.
-  - destruct (N.eqb_spec s seq); [discriminate|]. intros H. rewrite live_remove_keys. split; auto. apply H6; auto.
-  - rewrite live_remove_keys. intros [Hin Hne]. destruct (N.eqb_spec s seq); [contradiction|]. apply H6; auto.
+  - apply pend_after_remove; auto.
 Qed.
 
 (** the implementation's undo (flow - amt, clamped at 0, marker dropped) against the ghost refund *)
@@ -147,15 +165,16 @@ Proof.
   pose proof (live_find_some _ _ _ Hf) as Hin. destruct (H4 _ _ Hin) as [Ha0 Heq].
   assert (a0 = a) by congruence. subst a0.
   pose proof (live_sum_remove_found _ _ _ H5 Hf) as Hsum.
-  assert (Hle := live_sum_remove_le seq (g_live gs) (fun s a0 Hin => proj1 (H4 s a0 Hin))).
+  assert (Hle := live_sum_remove_le seq (g_live gs) (live_nonneg_of _ _ H4)).
+  assert (Hnn : 0 <= live_sum (live_remove seq (g_live gs))).
+  { apply live_sum_nonneg. intros s a0 Hi. apply live_remove_in in Hi. apply (H4 s a0). tauto. }
   assert (Hge : 0 <= f - a) by lia.
   destruct (Z.ltb_spec (f - a) 0); [lia|].
-  cbn [g_acc g_undone g_live]. repeat split; try lia.
-  - apply live_remove_in in H0. apply (H4 s a0). tauto.
-  - apply live_remove_in in H0. apply (H4 s a0). tauto.
+  unfold side_ok. cbn [g_acc g_undone g_live].
+  split; [lia|]. split; [lia|]. split; [lia|]. split; [|split].
+  - eapply live_remove_keeps; eauto.
   - apply live_remove_nodup; auto.
-  - destruct (N.eqb_spec s seq); [discriminate|]. intros Hq. rewrite live_remove_keys. split; auto. apply H6; auto.
-  - rewrite live_remove_keys. intros [Hi Hne]. destruct (N.eqb_spec s seq); [contradiction|]. apply H6; auto.
+  - apply pend_after_remove; auto.
 Qed.
 
 Lemma side_ok_refund_absent A f pend gs seq :
@@ -636,13 +655,14 @@ Qed.
 Theorem recv_error_ack_unchanged st pk app :
   snd (step st (ORecv pk app)) = cls_err -> fst (step st (ORecv pk app)) = st.
 Proof.
-  cbn [step]. unfold core_recv. destruct (snd (mw_on_recv st pk app)) eqn:E; cbn [fst snd]; auto; discriminate.
+  cbn [step]. unfold core_recv, cls_ok, cls_err, cls_async. destruct (mw_on_recv st pk app) as [st1 a]; cbn [fst snd].
+  destruct a; cbn [fst snd]; auto; discriminate.
 Qed.
 Theorem recvfwd_error_ack_unchanged st pk pk2 env_ok :
   snd (step st (ORecvFwd pk pk2 env_ok)) = cls_err -> fst (step st (ORecvFwd pk pk2 env_ok)) = st.
 Proof.
-  cbn [step]. destruct (receive_rate_limited st pk); cbn; auto.
-  destruct (send_rate_limited s pk2); cbn; auto. destruct env_ok; cbn; auto; discriminate.
+  cbn [step]. unfold cls_ok, cls_err, cls_async. destruct (receive_rate_limited st pk); cbn [fst snd]; auto.
+  destruct (send_rate_limited s pk2); cbn [fst snd]; auto. destruct env_ok; cbn [fst snd]; auto; discriminate.
 Qed.
 (** ... while the middleware alone (without core's cache context) would have kept the inflow: *)
 Lemma mw_on_recv_app_error_keeps_inflow :
@@ -670,16 +690,16 @@ Proof.
   - destruct (of_opt_admin st auth (add_rate_limit st p q cv chan_exists)) as [[E _]|(st' & Ho & _ & E)]; rewrite E in *; [discriminate|].
     cbn [fst]. unfold add_rate_limit in Ho. destruct (cv =? 0); [discriminate|]. destruct (limits st p); [discriminate|].
     destruct chan_exists; [|discriminate]. inversion Ho; subst.
-    eexists. cbn [limits clear_pending set_limit psend precv]. rewrite upd_same. split; [reflexivity|]. cbn.
-    repeat split; auto; intros s; unfold clear_path; rewrite path_eqb_refl; reflexivity.
+    eexists. cbn [limits clear_pending set_limit psend precv]. rewrite upd_same. split; [reflexivity|].
+    cbn [rl_flow zero_flow f_in f_out f_cv]. unfold clear_path. rewrite path_eqb_refl. auto.
   - destruct (of_opt_admin st auth (update_rate_limit st p q cv)) as [[E _]|(st' & Ho & _ & E)]; rewrite E in *; [discriminate|].
     cbn [fst]. unfold update_rate_limit in Ho. destruct (limits st p); [|discriminate]. inversion Ho; subst.
-    eexists. cbn [limits clear_pending set_limit psend precv]. rewrite upd_same. split; [reflexivity|]. cbn.
-    repeat split; auto; intros s; unfold clear_path; rewrite path_eqb_refl; reflexivity.
+    eexists. cbn [limits clear_pending set_limit psend precv]. rewrite upd_same. split; [reflexivity|].
+    cbn [rl_flow zero_flow f_in f_out f_cv]. unfold clear_path. rewrite path_eqb_refl. auto.
   - destruct (of_opt_admin st auth (reset_rate_limit st p cv)) as [[E _]|(st' & Ho & _ & E)]; rewrite E in *; [discriminate|].
     cbn [fst]. unfold reset_rate_limit in Ho. destruct (limits st p); [|discriminate]. inversion Ho; subst.
-    eexists. cbn [limits clear_pending set_limit psend precv]. rewrite upd_same. split; [reflexivity|]. cbn.
-    repeat split; auto; intros s; unfold clear_path; rewrite path_eqb_refl; reflexivity.
+    eexists. cbn [limits clear_pending set_limit psend precv]. rewrite upd_same. split; [reflexivity|].
+    cbn [rl_flow zero_flow f_in f_out f_cv]. unfold clear_path. rewrite path_eqb_refl. auto.
 Qed.
 
 Theorem epoch_reset_zeroes st t sup p rl :
@@ -692,3 +712,26 @@ Proof.
   apply andb_true_iff in He. destruct He as [Hd Ht]. apply negb_true_iff in Hd. rewrite Hd, Ht.
   cbn [limits psend precv ep_num]. rewrite Hl, Hh. auto.
 Qed.
+
+(** * the F4 history (fixed by 395272a): add; send 10; update; send 5; timeout of the first packet *)
+Definition f4_path : Path := (1%N, 1%N).
+Definition f4_ops : list Op :=
+  [ OAdd f4_path (mkQ 1 1 1) 100000 true true;
+    OSend (mkPkt f4_path 1 10 1 2) true;
+    OUpdate f4_path (mkQ 2 1 1) 100000 true;
+    OSend (mkPkt f4_path 2 5 1 2) true;
+    OTimeout (mkPkt f4_path 1 10 1 2) ].
+Definition f4_amounts (d : Dir) (p : Path) (s : N) : Z := if (s =? 1)%N then 10 else 5.
+
+Lemma f4_wf : wf_ops f4_amounts f4_ops.
+Proof.
+  intros o d pk Hin Hm. unfold f4_ops in Hin. cbn [In] in Hin.
+  repeat (destruct Hin as [<-|Hin]; [cbn [mentions In] in Hm; repeat (destruct Hm as [Hm|Hm]; [inversion Hm; subst; cbn; split; [lia|reflexivity]|]); try contradiction|]).
+  contradiction.
+Qed.
+
+Example f4_outflow_stays_5 :
+  option_map (fun rl => (f_in (rl_flow rl), f_out (rl_flow rl))) (limits (run (init_state 0 0 3600) f4_ops) f4_path) = Some (0, 5) /\
+  psend (run (init_state 0 0 3600) f4_ops) f4_path 1 = false /\
+  psend (run (init_state 0 0 3600) f4_ops) f4_path 2 = true.
+Proof. vm_compute. auto. Qed.
